@@ -26,7 +26,10 @@ RULE = ('(a) timers: op histories (register single/repeating with interval from 
         '/ let time pass / return true|false), <= 6 timers alive, <= 14 ops; the Event allocator hint is 0 (lowest '
         'free address => immediate address re-use) in 70% of registrations; templates aimed at self-cancel followed '
         'by re-registration at the same address, equal deadlines with cross-cancellation, due-boundary, zero '
-        'interval.  non-trivial = at least one callback ran and at least one state-changing op (register/cancel) '
+        'interval; SelectServer-level registration (real SelectServer on a virtual clock, both back-ends) through the '
+        'millisecond and the TimeInterval overloads with delays at the 32-bit boundaries of ms*1000 (4294967/4294968 '
+        'ms, 2^31/1000, 90 min, 2 h, UINT_MAX ms, small ones), clock advanced to delay-1/delay/delay+1 and to the '
+        'value a wrapping conversion would give.  non-trivial = at least one callback ran and at least one state-changing op (register/cancel) '
         'happened; distinct = distinct model output line.  (b) pollers: see gen_poller.py RULE.')
 ASSUMPTIONS = ['operator new does not fail',
                'callbacks honour the API contract: CancelTimeout is only called with the id of a timer that is '
@@ -35,11 +38,12 @@ ASSUMPTIONS = ['operator new does not fail',
                'tie order among equal deadlines is taken from a simulation of libstdc++ push_heap/pop_heap and '
                'pinned by the correspondence, no theorem depends on it)',
                'the Clock handed to the manager is monotonic']
-TRUSTED = ['modelled rather than verified: TimeoutManager::{RegisterRepeatingTimeout, RegisterSingleTimeout, '
+TRUSTED = ['modelled rather than verified: SelectServer::Register{Single,Repeating}Timeout(unsigned int ms) conversion, '
+           'TimeoutManager::{RegisterRepeatingTimeout, RegisterSingleTimeout, '
            'CancelTimeout, ExecuteTimeouts, Event, SingleEvent::Trigger, RepeatingEvent::Trigger}',
            'harness interposes operator new/delete for objects of sizeof(Event subclass) during Register calls to '
            'choose the address deterministically; virtual time through a Clock subclass']
-SPEC_KEYS = ['tr', 'e0', 'e1', 'e2', 'e3', 's0', 's1', 's2', 's3']
+SPEC_KEYS = ['tr', 'se', 'ss', 'e0', 'e1', 'e2', 'e3', 's0', 's1', 's2', 's3']
 
 
 def _repo_text(rel):
@@ -162,8 +166,52 @@ def _templates(rng):
     yield 'T %s;c0;c0;%s;a%d;x1|1;a%d;x1|1' % (_reg(rng, iv=iv), _reg(rng, iv=iv), iv, iv)
 
 
+MS_DELAYS = [0, 1, 2, 999, 1000, 1001, 60000, 4294966, 4294967, 4294968, 4294969, 5400000, 7200000,
+             8589934, 8589935, 2147483, 2147484, 2147483647, 2147483648, 4294967295]
+
+
+def _ss_case(rng):
+    """SelectServer-level registration through the millisecond / TimeInterval overloads, delays at the 32-bit
+    boundaries of ms*1000, clock advanced in large steps aimed at delay-1, delay, delay+1 and at the value a
+    32-bit wrapping conversion would give."""
+    ops = []
+    t = 0
+    timers = []
+    for _ in range(rng.choice([1, 1, 2, 3])):
+        ms = rng.choice(MS_DELAYS) if rng.random() < 0.85 else rng.randrange(1 << 32)
+        rep = rng.random() < 0.3 and ms > 0
+        if rng.random() < 0.75:
+            ops.append('m%d,%d' % (rep, ms)); us = ms * 1000
+        else:
+            us = ms * 1000 + rng.choice([0, 1, 999])
+            if rep and us == 0:
+                us = 1
+            ops.append('i%d,%d' % (rep, us))
+        timers.append(t + us)
+        if rng.random() < 0.3:
+            d = rng.choice([0, 1000, 1000000]); ops.append('a%d' % d); t += d; ops.append('x')
+    points = set()
+    for dl in timers:
+        us = dl
+        for p in (us - 1000, us - 1, us, us + 1, us + 1000, (us % (1 << 32)), (us % (1 << 32)) + 1000,
+                  (us % (1 << 31)) + 1, us // 2, 2 * us, 2 * us + 1):
+            if p >= t:
+                points.add(p)
+    pts = sorted(points)
+    if len(pts) > 9:
+        pts = sorted(rng.sample(pts, 9))
+    ops.append('x')
+    for p in pts:
+        if p > t:
+            ops.append('a%d' % (p - t)); t = p
+        ops.append('x')
+    return 'S ' + ';'.join(ops)
+
+
 def gen_cases(rng, tier):
     quick = tier == 'quick'
+    for _ in range(400 if quick else 20000):
+        yield _ss_case(rng)
     for _ in range(60 if quick else 1500):
         for c in _templates(rng):
             yield c
@@ -179,6 +227,8 @@ def nontrivial(payload, md):
     if payload.startswith('P'):
         pm = _poller()
         return bool(pm and pm.nontrivial(payload, md))
+    if payload.startswith('S'):
+        return 'F' in md.get('se', '')
     tr = md.get('tr', '')
     return 'F' in tr and ('G' in tr or 'C' in tr)
 
